@@ -210,6 +210,10 @@ let cmd_ld t =
   let bytes = bytes_of_hex (next t) in
   out_m (decode_length_delimiter (mk bytes)) (fun v _ -> string_of_z v)
 
+let cmd_lendelim t =
+  let bytes = bytes_of_hex (next t) in
+  out_m (decode_length_delimiter (mk bytes)) (fun v _ -> "L" ^ string_of_z v)
+
 let show_msg i v _s =
   let e = enc_msg !edv big_fuel !schema i v in
   let l = len_msg !edv big_fuel !schema i v in
@@ -278,7 +282,7 @@ let cmd_rtp t =
 
 let suites : (string * (toks -> string)) list = [
   "vi", cmd_vi; "ve", cmd_ve; "key", cmd_key; "dkey", cmd_dkey; "enc", cmd_enc; "encr", cmd_encr;
-  "encp", cmd_encp; "mrg", cmd_mrg; "mrgr", cmd_mrgr; "skip", cmd_skip; "ld", cmd_ld; "lendelim", cmd_ld;
+  "encp", cmd_encp; "mrg", cmd_mrg; "mrgr", cmd_mrgr; "skip", cmd_skip; "ld", cmd_ld; "lendelim", cmd_lendelim;
   "rt", cmd_rt; "rtr", cmd_rtr; "rtp", cmd_rtp;
   "dec", cmd_dec; "decq", cmd_dec; "declen", cmd_declen; "merge", cmd_merge; "encm", cmd_encm ]
 
